@@ -26,6 +26,9 @@ def interp(world, rel, memo=None):
 
 
 def leaf_rows(world, rel):
+    info = world.leaf_by_obj.get(id(rel))
+    if info is not None:
+        return [dict(zip(info["cols"], r)) for r in info["rows"]]
     name = rel.name
     if name.startswith("L") and name[1:].isdigit():
         info = world.leaves.get(int(name[1:]))
